@@ -64,3 +64,4 @@ INVARIANT C08_Done
 INVARIANT C09_RevisionsFirst
 INVARIANT C09_OneClaim
 INVARIANT C09_NotAhead
+INVARIANT Vacuity
